@@ -563,6 +563,9 @@ func c09Protocol(c *Ctx, fn *ssa.Function, ren *ssa.Call) {
 				bad = "the function has no success exit"
 			}
 		}
+		if bad != "" && nilOnlyAfterSuccess(fn, ren) {
+			bad = "" // the error variable accumulates: decided path by path (nilpaths.go)
+		}
 		r.Check(bad == "", "O-2", fk+"#success-only-after-rename", pos, "every nil return lies behind a successful Rename", bad)
 	}
 	_ = token.NoPos
